@@ -16,6 +16,7 @@ import (
 
 	"github.com/hashicorp/hcl/v2"
 	"github.com/hashicorp/hcl/v2/hclsyntax"
+	hcljson "github.com/hashicorp/hcl/v2/json"
 	"github.com/zclconf/go-cty/cty"
 
 	"verif/engine"
@@ -168,6 +169,11 @@ func gen(tier string, emit func(engine.Case) bool) {
 			return
 		}
 	}
+	for i, j := range jsonForms() {
+		if !emit(engine.Case{ID: fmt.Sprintf("json/%d", i), Data: Data{Kind: "json", Family: "json", Src: j}}) {
+			return
+		}
+	}
 	fam.All(fam.Opts{Thorough: tier == "thorough"}, func(family, id string, e *ex.E) bool {
 		if len(pool.FreeVars(e)) == 0 {
 			return true
@@ -223,10 +229,77 @@ func erroneous() []*ex.E {
 	return out
 }
 
+// jsonForms: JSON-syntax expressions (X is replaced by each variable name) aimed at the JSON front end's own diagnostics.
+func jsonForms() []string {
+	tmpls := []string{
+		`{"${X}": 1, "${X}": 2}`, `{"k${X}": 1, "k${X}": 2}`, `{"${X}": 1, "a": 2, "${X}": {"${X}": 3, "${X}": 4}}`,
+		`["${X}", {"${X}": "${X}"}]`, `"${X.nope}"`, `"${X[X]}"`, `"${X + 1}"`, `"%{ if X }a%{ endif }"`, `"%{ for v in X }${v + 1}%{ endfor }"`,
+		`{"${[X]}": 1}`, `{"${X}": "${nosuch}"}`,
+	}
+	var out []string
+	for _, v := range []string{"sa", "one", "ls", "mn", "o", "t", "ss"} {
+		for _, t := range tmpls {
+			out = append(out, strings.ReplaceAll(t, "X", v))
+		}
+	}
+	return out
+}
+
+func judgeJSON(d Data) engine.Outcome {
+	src := []byte(d.Src)
+	expr, pd := hcljson.ParseExpression(src, "t.json")
+	if pd.HasErrors() {
+		return engine.Skip()
+	}
+	files := map[string]*hcl.File{"t.json": {Bytes: src}}
+	ndiags := 0
+	var sums []string
+	for _, name := range pool.VarNames {
+		if !strings.Contains(d.Src, name) {
+			continue
+		}
+		for pi, cv := range canaries(pool.Vars[name]) {
+			ctx := &hcl.EvalContext{Variables: pool.WithVar(name, cv), Functions: pool.ImplFuncs()}
+			_, diags := expr.Value(ctx)
+			ndiags += len(diags)
+			if leak := checkDiags(diags, files); leak != "" {
+				sum := ""
+				for _, dg := range diags {
+					if scan("", dg.Summary+" "+dg.Detail) != "" {
+						sum = dg.Summary
+					}
+				}
+				if sum == "" && len(diags) > 0 {
+					sum = "text-writer:" + diags[0].Summary
+					if tw := textWriterClass(leak); tw != "" {
+						sum = tw
+					}
+				}
+				class := "c19.json-leak." + slug(sum)
+				if strings.HasPrefix(sum, "text-writer-value-of") {
+					class = "c19.leak." + slug(sum) // the same defect as in the native syntax
+				}
+				return engine.Fail(class, "JSON source: %s\nvariable %s = canary placement %d (marked)\n%s", d.Src, name, pi, leak)
+			}
+			for _, dg := range diags {
+				sums = append(sums, dg.Summary)
+			}
+		}
+	}
+	counters.Add("diagnostics_scanned_json", int64(ndiags))
+	if ndiags == 0 {
+		return engine.Pass("")
+	}
+	return engine.Pass("json:" + strings.Join(dedup(sums), "|"))
+}
+
 func judge(c engine.Case) engine.Outcome {
 	d := c.Data.(Data)
 	if d.Kind == "body" {
 		return judgeBody(d)
+	}
+	if d.Kind == "json" {
+		return judgeJSON(d)
 	}
 	src := []byte(d.Src)
 	var expr hclsyntax.Expression
@@ -339,7 +412,7 @@ func main() {
 		ID:        "C19",
 		Title:     "Diagnostics never reveal the content of marked values",
 		Technique: "bounded exhaustive canary sweep over expression ASTs and bodies x variable x canary placements, scanning every diagnostic and its text renderings, on the real evaluator/decoder",
-		Rule: "every AST of the expression families that refers to a variable, plus 400 erroneous forms aimed at the value-formatting diagnostic sites, x every variable referred to x every canary placement for its kind (whole value, elements, map keys / attribute names, numeric string, element-level marks); bodies: see rule_bodies. " +
+		Rule: "every AST of the expression families that refers to a variable, plus 500 erroneous forms aimed at the value-formatting diagnostic sites and 77 JSON-syntax expressions (duplicate / invalid object keys and templates built from the marked variable), x every variable referred to x every canary placement for its kind (whole value, elements, map keys / attribute names, numeric string, element-level marks); bodies: see rule_bodies. " +
 			"All diagnostics' Summary and Detail and the NewDiagnosticTextWriter output (width 0/78, colour off/on, source registered) are scanned for the canaries. Non-trivial = at least one diagnostic produced; distinct = distinct sets of diagnostic summaries reached.",
 		Assumptions: []string{"messages produced by application-supplied functions are out of scope: the function table's functions return canary-free errors", "a canary never occurs in source text or in unmarked values, so any hit came from a marked value"},
 		Gen:         gen,
